@@ -37,6 +37,9 @@ func worldWire(w *World) {
 	viol := func(oracle, sig, f string, a ...any) { w.Violate("C05", oracle, sig, f, a...) }
 	r := w.R
 	token := marker(w, "tok")
+	if w.KnobBool("no_token", 20) {
+		token = "" // no shared token configured (the default): the registrations' secrets are owed the same protection
+	}
 	sk := marker(w, "sk")
 	httpPwd := marker(w, "pw")
 	payloadMk := marker(w, "pay")
@@ -199,7 +202,7 @@ func worldWire(w *World) {
 	}
 	cfgDesc := fmt.Sprintf("tls=%v custom-first-byte=%v protocol=%s mux=%v proxy-encryption=%v compression=%v", tlsOn, custom, proto, tcpMux, enc, comp)
 	w.Check("C05.secrets-never-in-clear")
-	if has(token) {
+	if token != "" && has(token) {
 		viol("secrets", "token-in-clear", "the authentication token crossed the client-server path in clear (%s)", cfgDesc)
 	}
 	if has(sk) {
